@@ -18,7 +18,7 @@ SPEC = {
         # "a silence created or expired through any instance's API is eventually effective on every connected instance": effectiveness of merged versions is the mute verdict of C02's engine
         {"name": "silencer", "pkg": "./silencer", "search_cases": 6000, "quick_cases": 1200},
         # a Merge racing a local Expire of the same id (real goroutines, real time): the newest version wins
-        {"name": "mutesrace", "pkg": "./mutesrace", "search_cases": 60, "timeout_quick": 300, "only": ["merge_monotone"]},
+        {"name": "mutesrace", "pkg": "./mutesrace", "search_cases": 60, "timeout_quick": 300, "only": ["merge_monotone", "mutesI_next_call_exact"]},
         # "connected instances converge": a lost update broadcast is repaired by the periodic full-state exchange of the
         # gossip layer (delegate.LocalState(join=false) -> MergeRemoteState), C19's engine
         {"name": "gossip", "pkg": "./gossip", "search_cases": 6000, "quick_cases": 600, "only": ["full_state_superset"]},
